@@ -40,24 +40,24 @@ type Anchor struct {
 
 // Contract is the contract of one function or interface method.
 type Contract struct {
-	Name     string // "Recv.Method" or "Func"
-	Requires []*Clause
-	Serves   []*Clause // "serves [Cnn] text": the function belongs to the code a property quantifies over (no clause of its own)
-	Ensures  []*Clause
-	Modifies []string
-	Loops    map[int]*LoopSpec
-	Anchors  []*Anchor
-	Assumed  bool // assume-contract: body not verified (trusted / external)
-	BV       bool // verify in pure bit-vector mode
-	NoBody   bool
-	Lemma    bool // ghost client lemma function
+	Name        string // "Recv.Method" or "Func"
+	Requires    []*Clause
+	Serves      []*Clause // "serves [Cnn] text": the function belongs to the code a property quantifies over (no clause of its own)
+	Ensures     []*Clause
+	Modifies    []string
+	Loops       map[int]*LoopSpec
+	Anchors     []*Anchor
+	Assumed     bool // assume-contract: body not verified (trusted / external)
+	BV          bool // verify in pure bit-vector mode
+	NoBody      bool
+	Lemma       bool // ghost client lemma function
 	KeepsGhosts bool // the function changes no ghost variable (checked on its body): callers keep their ghost values
-	Pure     bool // deterministic function of its scalar arguments: usable in specifications as the function symbol uf_<name>
-	Wraps    bool // signed arithmetic wraps (faithful modular semantics, no ovf obligations)
-	Reason   string
-	File     string
-	Line     int
-	Params   string // for interface methods / externals: "(p []byte) (n int, err error)"
+	Pure        bool // deterministic function of its scalar arguments: usable in specifications as the function symbol uf_<name>
+	Wraps       bool // signed arithmetic wraps (faithful modular semantics, no ovf obligations)
+	Reason      string
+	File        string
+	Line        int
+	Params      string // for interface methods / externals: "(p []byte) (n int, err error)"
 }
 
 var clauseRe = regexp.MustCompile(`^(requires|ensures|owns|serves|invariant|decreases|modifies|loop|at|flags|params|assert|reason)\b`)
@@ -178,7 +178,7 @@ func parseContractBlock(body, file string, line0 int) (*Contract, error) {
 			ct.Loops[curLoop].Dec = mk(r)
 		case "at":
 			// at "pattern"#k before|after: kind text
-			m := regexp.MustCompile(`^"((?:[^"\\]|\\.)*)"(?:#(\d+))?\s+(before|after):\s*(ghost|assert|assume|abstract|apply|cover)\s+(.*)$`).FindStringSubmatch(r.text)
+			m := regexp.MustCompile(`^"((?:[^"\\]|\\.)*)"(?:#(\d+))?\s+(before|after):\s*(ghost|assert|assume|abstract|applyall|apply|cover)\s+(.*)$`).FindStringSubmatch(r.text)
 			if m == nil {
 				return nil, fmt.Errorf("line %d: bad 'at' clause: %s", r.line, r.text)
 			}
